@@ -491,3 +491,43 @@ void harness_owner_leaves_two_callers(void)
 	CHECK(verif_live_blocks <= blocks0, "C07.routing_records_released_when_owner_leaves");
 	WITNESS_END();
 }
+
+/* ================================================================== two requests without id of one caller in flight at the same time: distinct routed ids,
+ * each answer consumed, both records and timers released */
+void harness_two_requests_without_id(void)
+{
+	setup();
+	int v = (int)nd_range(0, 999);
+	long blocks0 = verif_live_blocks;
+	int k1 = do_set(&A, 0, v), k2 = do_set(&A, 0, v);
+	__CPROVER_assume(k1 >= 0 && k2 >= 0);
+	CHECK(timers_alive() == 2, "C07.one_timer_per_in_flight_request");
+	CHECK(strcmp(LOG[k1].id_str, LOG[k2].id_str) != 0, "C03.routed_ids_unique_among_in_flight_requests");
+	int before = nlog;
+	int r1 = reply(&O, LOG[k1].id_str, 0, 1), r2 = reply(&O, LOG[k2].id_str, 0, 2);
+	CHECK(r1 >= 0 && r2 >= 0 && nlog == before, "C03.caller_without_id_receives_nothing");
+	CHECK(timers_alive() == 0, "C07.request_timer_destroyed_after_reply");
+	CHECK(verif_live_blocks == blocks0, "C07.routing_record_released_after_reply");
+	WITNESS_END();
+}
+
+/* ================================================================== the owner removed the addressed element (its last one) while the request is in flight and then
+ * disconnects: the caller still gets exactly one final answer */
+void harness_owner_leaves_after_element_removed(void)
+{
+	setup();
+	int v = (int)nd_range(0, 999);
+	int ka = do_set(&A, 7, v);
+	__CPROVER_assume(ka >= 0);
+	scn_build_begin();
+	cJSON *rem = mkreq("remove", 2, path_params("s", NO_VALUE));
+	scn_build_end();
+	__CPROVER_assume(dispatch(&O, rem) == 0);
+	CHECK(list_empty(&O.element_list) && answers_to(&A, 7) == 0 && timers_alive() == 1, "C03.removing_the_element_does_not_answer_the_request");
+	free_peer_resources(&O);
+	dead_peer = &O;
+	struct sent *a = answer_to(&A, 7);
+	CHECK(answers_to(&A, 7) == 1 && a && a->is_error && !a->has_result, "C03.owner_disconnect_answers_shutdown_error_once");
+	CHECK(timers_alive() == 0, "C07.request_timers_destroyed_when_owner_leaves");
+	WITNESS_END();
+}
